@@ -97,9 +97,13 @@ def check_call(src, twin, call, rec, kind):
         lo, hi = call[1], call[2]
         v = src.random_float(lo, hi)
         v2 = twin.random_float(lo, hi)
-        t = tol(lo, hi)
+        # the seeded source and equal bounds are judged exactly (the only float in [c, c] is c; a
+        # refinement's validate() compares exactly, too); genotype-backed arithmetic gets a tolerance
+        t = 0.0 if (lo == hi or kind == "native") else tol(lo, hi)
         if not isinstance(v, float) or not (lo - t <= v <= hi + t):
-            rec.fail(f"C18/{site}/random_float-out-of-bounds", f"random_float({lo},{hi}) -> {v!r}")
+            rec.fail(f"C18/{site}/random_float-out-of-bounds" + ("/equal-bounds" if lo == hi else ""), f"random_float({lo!r},{hi!r}) -> {v!r}")
+        if lo == hi and isinstance(lo, float) and lo != int(lo):
+            rec.nontrivial(("float-eq", kind, lo, repr(v)))
         if v != v2:
             rec.fail(f"C18/{site}/same-seed-different-stream", f"random_float({lo},{hi}) -> {v!r} vs twin {v2!r}")
     elif op == "choice":
@@ -179,8 +183,10 @@ def bounds():
 
 
 def float_bounds():
-    vals = st.sampled_from([-100.0, -1.5, -0.3, 0.0, 0.1, 0.25, 1.0, 9.0, 10.0, 1e6])
-    return st.tuples(vals, vals).map(lambda p: (min(p), max(p)))
+    pool = [-100.0, -1.5, -0.3, 0.0, 0.1, 0.25, 1.0, 9.0, 10.0, 1e6, 19.99, -7.3, 123.456, 1 / 3, 6.02e23, 1e-300]
+    vals = st.one_of(st.sampled_from(pool), st.floats(-1e6, 1e6, allow_nan=False))
+    pair = st.tuples(vals, vals).map(lambda p: (min(p), max(p)))
+    return st.one_of(pair, pair, vals.map(lambda c: (c, c)))
 
 
 def weight_vectors():
